@@ -325,6 +325,17 @@ def suffix_gate(run, P):
                 run.violation('suffix|qf', f'{cn}: the suffix is not accompanied by the query and fragment of the value')
 
 
+def suffix_kind_gate(run, P):
+    """PathImpl::suffix compares the segments exactly when value and prefix are both absolute or both relative (abstract execution per
+    kind combination, every other test taken both ways)"""
+    from .. import cmpsem
+    fn = 'common::path::PathImpl::suffix'
+    b = P.body(fn)
+    run.count('suffix_kind_scenarios', 4)
+    for pr in cmpsem.kind_gate(P, fn):
+        run.violation(f'suffix|kind|{pr[:90]}', f'{P.where(b) if b else fn} {fn}: {pr}')
+
+
 def suffix_lockstep(run, P):
     """PathImpl::suffix: None unless both paths are absolute or both relative; then the two normalised-segment iterators are consumed in
     lockstep, and ONE ITERATION of the loop does exactly this, for every combination of (value has a segment, prefix has a segment, equal):
@@ -489,6 +500,7 @@ def main(run):
             run.violation('directory|last', f'{P.where(db)} PathImpl::directory: cannot establish that the "/" it cuts after is the LAST one (neither a backward scan nor rposition)')
     base_effect(run, P)
     suffix_gate(run, P)
+    suffix_kind_gate(run, P)
     suffix_lockstep(run, P)
     scratch = Run('C16-sites', run.tier, '__none__')
     _, res = sites.check(scratch, P, 'C16')
